@@ -899,7 +899,12 @@ def run(ctx):
         hists.append(gen_history(rng.fork('h%d' % k), ctx.tier))
     def one(kh):
         k, h = kh
-        return k, h, run_history(h, impl, mexe, wd, 'h%d' % k)
+        r = run_history(h, impl, mexe, wd, 'h%d' % k)
+        if r['hang'] or r['crash']:
+            # mpiexec under load occasionally loses a rank at MPI_Finalize: only a reproducible fault counts
+            with RETRY_LOCK:
+                r = run_history(h, impl, mexe, wd, 'h%dr' % k)
+        return k, h, r
     reported = set()
     with cf.ThreadPoolExecutor(max_workers=8) as ex:
         for k, h, r in ex.map(one, enumerate(hists)):
@@ -942,6 +947,8 @@ def run(ctx):
                        'rename/delete/overwrite/copy after a successful definition (from the library\'s own return codes).')
     ctx.cov['distribution'] = dist
 
+import threading
+RETRY_LOCK = threading.Lock()
 MODIFY = ('rename_dim', 'rename_var', 'rename_att', 'del_att', 'copy_att')
 
 def account(ctx, dist, h, r):
